@@ -75,17 +75,29 @@ def not_of_group(g):
     return doc, insts, "not-of-" + op
 
 
+def not_of_repeated(g):
+    """`$not` whose argument carries its own repetition (`nop` twice, `$or` two to three times): the argument fails at an
+    instruction where it matches only once, so `$not` holds there"""
+    a, b, y = g.r.sample(["nop", "push", "pop", "add", "xor", "sub"], 3)
+    lo = g.pick([2, 2, 3])
+    arg = g.pick([{a: {"times": lo}}, {"$or": [a, b], "times": {"min": lo, "max": lo + 1}}, {a: ["%r"], "times": lo}])
+    doc = {"pattern": [{"$not": [arg]}, y]}
+    run_len = g.pick([1, lo - 1, lo, lo + 1])
+    insts = [("7000", "ret", [])] + [("%x" % (0x7001 + i), a, ["%rax"]) for i in range(run_len)] + [("7010", y, ["%rbx"]), ("7013", "ret", [])]
+    return doc, insts, "not-of-repeated-argument"
+
+
 def run(ctx, factor):
     rep = ctx.report
-    for _ in range(ctx.budget(30, 1000) * factor):
-        doc, insts, tag = not_of_group(ctx.g)
+    for it in range(ctx.budget(45, 1500) * factor):
+        doc, insts, tag = not_of_group(ctx.g) if it % 3 else not_of_repeated(ctx.g)
         o = patdiff.observe(ctx, doc, insts, modes=("bool", "all", "first"))
         usable = patdiff.correspondence(ctx, o)
         if usable:
             patdiff.spec_verdict(ctx, o)
             patdiff.spec_scan(ctx, o)
         rep.case(patdiff.case_of(o), usable, tags=[tag])
-        if rep.violations and factor > 1:
+        if rep.has_new() and factor > 1:
             return
     for _ in range(ctx.budget(40, 1500) * factor):
         doc, insts, tag = operand_not_exactly_one(ctx.g)
@@ -94,7 +106,7 @@ def run(ctx, factor):
         if usable:
             patdiff.spec_verdict(ctx, o)
         rep.case(patdiff.case_of(o), usable, tags=[tag])
-        if rep.violations and factor > 1:
+        if rep.has_new() and factor > 1:
             return
     ctx.report.rule = ("rules with $not in leading / inner / trailing / repeated / operand position, argument a "
                        "single item or a group spanning 1-3 instructions; listings where the argument holds / fails "
